@@ -3,6 +3,7 @@ package onchain
 import (
 	"context"
 	"crypto/sha256"
+	"encoding/binary"
 	"fmt"
 	"math/big"
 	"time"
@@ -74,7 +75,11 @@ func firstEvent(ctx context.Context, source chan interface{}) (out chan interfac
 					bytes = append(bytes, new(big.Int).SetUint64(content.BlockN).Bytes()...)
 					nHash := sha256.Sum256(bytes)
 
-					identity := string(nHash[:])
+					// a log is identified by its transaction and position as well: two distinct
+					// logs with equal data in one block are two events
+					var logIndex [8]byte
+					binary.BigEndian.PutUint64(logIndex[:], uint64(content.Raw.Index))
+					identity := string(nHash[:]) + string(content.Raw.TxHash[:]) + string(logIndex[:])
 					if visited[identity] == 0 {
 						visited[identity] = content.BlockN
 						select {
